@@ -61,7 +61,8 @@ type BlockRecord struct {
 	Order    string           `json:"order"` // digest of the write order of the block
 	NewKeys  int              `json:"newKeys"`
 	State    *AbsState        `json:"state,omitempty"`
-	Set      map[string]int64 `json:"set"` // validator set in effect at this height
+	Set      map[string]int64 `json:"set"`  // validator set in effect at this height
+	Next     map[string]int64 `json:"next"` // Tendermint's next set, to which this block's updates are applied
 }
 
 // NUpdate is a validator update with the validator's model name.
@@ -119,6 +120,15 @@ func (vs *ValSets) nameByAddr(addr []byte) string {
 func (vs *ValSets) Members() map[string]int64 {
 	m := map[string]int64{}
 	for _, v := range vs.cur.Validators {
+		m[vs.nameByAddr(v.Address)] = v.VotingPower
+	}
+	return m
+}
+
+// NextMembers returns name -> power of the set that takes effect at the next height.
+func (vs *ValSets) NextMembers() map[string]int64 {
+	m := map[string]int64{}
+	for _, v := range vs.next.Validators {
 		m[vs.nameByAddr(v.Address)] = v.VotingPower
 	}
 	return m
@@ -316,6 +326,7 @@ func run(sc *Scenario, g *Genesis, ref *Transcript, o RunOpts) (*Transcript, err
 			tr.Checked = append(tr.Checked, checked)
 		}
 		br.Set = members
+		br.Next = vs.NextMembers()
 		cmd := &Cmd{Op: "run_block", Block: b, WantState: o.WantState, WantOrder: true}
 		if ref != nil && !o.NoCheck && bi < len(ref.Checked) {
 			// the same mempool checks the reference run made, at the same point
